@@ -33,7 +33,7 @@ Layout(j) == [comps |-> j.comps, has |-> j.has, resets |-> j.resets, plain |-> j
 
 TInit == /\ tid \in 1..Len(Batch) /\ l = 1 /\ verdict = "" /\ vkind = "" /\ vnew = FALSE /\ seen = {}
          /\ adopted = 0 /\ lastSw = FALSE /\ mon = [lastM |-> "", prevEnabled |-> FALSE, afterWake |-> FALSE, bad |-> "", fbc |-> <<>>,
-                       fmsOn |-> Batch[tid].fms, pendingFatal |-> FALSE]
+                       fmsOn |-> Batch[tid].fms, pendingFatal |-> FALSE, fbRaised |-> FALSE]
          /\ Init(Layout(Batch[tid].shape), Batch[tid].fms)
 
 J(v) == ToJson(v)
@@ -99,6 +99,7 @@ MonStep(ev) ==
             [lastM |-> ev.m, prevEnabled |-> mon.prevEnabled, afterWake |-> FALSE,
              fbc |-> IF ev.k = "feedback" THEN Append(mon.fbc, ev.key) ELSE mon.fbc,
              fmsOn |-> mon.fmsOn, pendingFatal |-> (ev.raise /\ ~mon.fmsOn),
+             fbRaised |-> (ev.k = "feedback" /\ ev.raise),      \* the last callback was a feedback getter that raised
              bad |-> IF mon.pendingFatal THEN "mon:went_on_after_fault_without_fms"
                      ELSE IF mon.afterWake /\ mon.prevEnabled
                         /\ \E c \in CompSet : \E a \in DOMAIN sh.resets[c] : ev.vals[c][a] # sh.resets[c][a]
@@ -109,11 +110,14 @@ MonStep(ev) ==
                                               THEN "mon:getter_not_called_exactly_once" ELSE ""]
       [] ev.e = "wake" -> [mon EXCEPT !.afterWake = TRUE, !.bad = ""]
       [] ev.e = "fms" -> [mon EXCEPT !.fmsOn = ev.b, !.bad = ""]
-      [] ev.e = "exit" -> [mon EXCEPT !.bad = IF ev.crashed /\ mon.fmsOn THEN "mon:program_died_with_fms_attached"
+      [] ev.e = "exit" -> [mon EXCEPT !.bad = IF ev.crashed /\ mon.fmsOn /\ mon.fbRaised
+                                                THEN "mon:raising_getter_killed_the_program_with_fms_attached"
+                                                ELSE IF ev.crashed /\ mon.fmsOn THEN "mon:program_died_with_fms_attached"
                                                 ELSE IF ~ev.crashed /\ mon.pendingFatal THEN "mon:went_on_after_fault_without_fms"
                                                 ELSE ""]
       [] OTHER -> [mon EXCEPT !.bad = ""]
 MonOwner(m) == IF m = "mon:getter_not_called_exactly_once" THEN {"C11"}
+               ELSE IF m = "mon:raising_getter_killed_the_program_with_fms_attached" THEN {"C07", "C11"}
                ELSE IF m \in {"mon:program_died_with_fms_attached", "mon:went_on_after_fault_without_fms"} THEN {"C07"}
                ELSE {"C10"}
 MonMismatch(ev, m1) ==
@@ -164,7 +168,9 @@ TStep ==
           /\ IF SilentEnabled
              THEN Silent /\ UNCHANGED <<l, seen, adopted, lastSw, mon>> /\ NoVerdict
              ELSE LET ev == T.steps[l].in  m1 == MonStep(ev) IN
-                  IF m1.bad # "" /\ Owned(MonOwner(m1.bad)) /\ EvEnabled(ev) /\ DataDiffs(ev) = {}
+                  IF m1.bad # "" /\ Owned(MonOwner(m1.bad))
+                     /\ \/ EvEnabled(ev) /\ DataDiffs(ev) = {}
+                        \/ ~EvEnabled(ev) /\ ~Owned(OrderOwner(ev))      \* (would be FOREIGN: the monitor's clause is Prop's)
                   THEN /\ mon' = m1 /\ UNCHANGED rvars /\ UNCHANGED <<seen, adopted, lastSw>> /\ l' = l + 1
                        /\ MonMismatch(ev, m1)
                   ELSE Consume /\ mon' = (IF l' = l THEN mon ELSE m1)
